@@ -37,6 +37,11 @@ func main() {
 		os.Exit(cmdShard(os.Args[2:]))
 	case "replay":
 		os.Exit(cmdReplay(os.Args[2:]))
+	case "c19replay":
+		if err := checks.C19ReplayMain(os.Args[2], os.Args[3]); err != nil {
+			fmt.Fprintln(os.Stderr, err)
+			os.Exit(2)
+		}
 	case "list":
 		var ids []string
 		for id := range checks.Registry {
